@@ -4,6 +4,7 @@ package rangeplugin
 
 import (
 	"net"
+	"time"
 
 	"github.com/coredhcp/coredhcp/internal/vnd"
 	"github.com/insomniacslk/dhcp/dhcpv4"
@@ -17,10 +18,34 @@ import (
 // exercised by a second call. Second request: the same client again, or a client
 // never seen before.
 func VerifH_range_two() {
-	w := makeRange()
+	// the state is either an arbitrary one built by the harness or the one the real
+	// setupRange leaves on an empty store (range 10.200.150.101-103): what setup
+	// keeps besides the range is only ever seen through the handler it returns
+	var w *rworld
+	handle := func(req, resp *dhcpv4.DHCPv4) (*dhcpv4.DHCPv4, bool) { return nil, true }
+	if vnd.Pick("viasetup", 0, 1) == 1 {
+		dbReset()
+		h, err := setupRange("leases.sqlite3", "10.200.150.101", "10.200.150.103", "1h")
+		vnd.Assert(err == nil && h != nil, "C02 a valid range is accepted")
+		if err != nil || h == nil {
+			return
+		}
+		w = &rworld{n: 3, start: 10<<24 | 200<<16 | 150<<8 | 101, lease: time.Hour, mac: net.HardwareAddr(vnd.Bytes("chaddr", 6))}
+		w.key = w.mac.String()
+		handle = h
+	} else {
+		w = makeRange()
+		handle = w.p.Handler4
+	}
+	words := func() []uint64 {
+		if w.alloc == nil {
+			return nil
+		}
+		return append([]uint64(nil), w.alloc.VerifWords()...)
+	}
 	req1, resp1, _ := w.request()
-	r1, _ := w.p.Handler4(req1, resp1)
-	mid := append([]uint64(nil), w.alloc.VerifWords()...)
+	r1, _ := handle(req1, resp1)
+	mid := words()
 	var ip1 uint32
 	has1 := false
 	if r1 != nil {
@@ -47,7 +72,7 @@ func VerifH_range_two() {
 		ClientIPAddr: make(net.IP, 4), YourIPAddr: make(net.IP, 4), ServerIPAddr: make(net.IP, 4), GatewayIPAddr: make(net.IP, 4)}
 	resp2.Options[uint8(dhcpv4.OptionDHCPMessageType)] = []byte{byte(dhcpv4.MessageTypeAck)}
 
-	r2, stop2 := w.p.Handler4(req2, resp2)
+	r2, stop2 := handle(req2, resp2)
 
 	end := w.start + uint32(w.n) - 1
 	if same {
@@ -59,8 +84,9 @@ func VerifH_range_two() {
 			}
 			y := r2.YourIPAddr.To4()
 			vnd.Assert(y != nil && u32of(y) == ip1, "C02 a client is given the same address on its next request")
-			post := w.alloc.VerifWords()
-			vnd.Assert(sameWords(post, mid), "C02 serving the same client again allocates nothing")
+			if mid != nil {
+				vnd.Assert(sameWords(words(), mid), "C02 serving the same client again allocates nothing")
+			}
 		} else {
 			vnd.Assert(r2 == nil && stop2, "C02 a client refused for lack of addresses stays refused while nothing is released")
 		}
@@ -69,7 +95,11 @@ func VerifH_range_two() {
 	vnd.Cover("new-client-next")
 	if r2 == nil {
 		vnd.Assert(stop2, "C02 nil response only with stop")
-		vnd.Assert(allSet(mid, w.n), "C02 an unknown client is refused only when every address is bound")
+		if mid != nil {
+			vnd.Assert(allSet(mid, w.n), "C02 an unknown client is refused only when every address is bound")
+		} else {
+			vnd.Assert(false, "C02 an unknown client is refused only when every address is bound")
+		}
 		return
 	}
 	y := r2.YourIPAddr.To4()
@@ -90,5 +120,7 @@ func VerifH_range_two() {
 	}
 	i := uint64(v - w.start)
 	vnd.Assume(i < uint64(w.n))
-	vnd.Assert(!hbit(mid, i), "C02 a new client gets an address nobody holds")
+	if mid != nil {
+		vnd.Assert(!hbit(mid, i), "C02 a new client gets an address nobody holds")
+	}
 }
